@@ -20,7 +20,7 @@ def run_scenario(loop_name, scn, max_waits=400):
     na, nf, ni = len(scn["alarms"]), len(scn["watches"]), len(scn["idles"])
     env = loops.Env({f + 1: w["at"] for f, w in enumerate(scn["watches"]) if w["at"] < 9000}, max_waits=max_waits)
     ad = loops.ADAPTERS[loop_name](env)
-    state = {"nextid": na + 2, "alarm_h": {}, "watch_h": {}, "idle_h": {}}
+    state = {"nextid": na + 2, "nextidle": ni + 1, "alarm_h": {}, "watch_h": {}, "idle_h": {}}
     outcome = {"t": "run_end", "outcome": "return", "exc": ""}
     try:
         loop = ad.make()
@@ -35,6 +35,11 @@ def run_scenario(loop_name, scn, max_waits=400):
                     i = state["nextid"]
                     state["nextid"] += 1
                     reg_alarm(i, 10, "noop")
+            elif beh == "addIdle":      # enter_idle() from within a callback
+                if state["nextidle"] <= 3:
+                    i = state["nextidle"]
+                    state["nextidle"] += 1
+                    reg_idle(i, "noop")
             elif beh in ("removeAlarm", "removeAlarmTwice"):
                 tgt = (me % na) + 1 if kind == "alarm" else 1
                 for _ in range(2 if beh == "removeAlarmTwice" else 1):
@@ -132,13 +137,13 @@ def scn_from_state(st):
             "idles": list(sc["idles"])}
 
 
-ABEH = ["noop", "addAlarm", "removeAlarm", "removeAlarmTwice", "removeWatch", "removeIdle", "slow", "exit", "error"]
-WBEH = ["noop", "removeWatch", "removeSelfWatch", "removeAlarm", "slow", "error"]
+ABEH = ["noop", "addAlarm", "addIdle", "removeAlarm", "removeAlarmTwice", "removeWatch", "removeIdle", "slow", "exit", "error"]
+WBEH = ["noop", "addIdle", "removeWatch", "removeSelfWatch", "removeAlarm", "slow", "error"]
 IBEH = ["noop", "removeIdle", "error"]
 
 
 def random_scn(rng):
-    na, nf, ni = rng.randint(1, 5), rng.randint(0, 3), rng.randint(0, 3)
+    na, nf, ni = rng.randint(1, 5), rng.randint(0, 3), rng.choice([0, 0, 1, 2, 3])
     return {"alarms": [{"delay": rng.choice([0, 0, 10, 10, 20, 30, 50]), "beh": rng.choice(ABEH + ["noop", "slow"])} for _ in range(na)],
             "watches": [{"at": rng.choice([9999, 0, 0, 10, 15, 25]), "beh": rng.choice(WBEH + ["noop", "exit"])} for _ in range(nf)],
             "idles": [rng.choice(IBEH + ["noop", "noop", "exit", "slow"]) for _ in range(ni)]}
@@ -189,7 +194,7 @@ def run(chk, loops_to_run=None):
     # ---- MC: the contract is satisfiable by a correct loop for every scenario; bad loops are refuted ----
     if quick:
         cfg = MC_CFG.format(na=2, nf=1, ni=2, bad="", delays=_q([0, 10]), ats=_q([9999, 0, 15]),
-                            abeh=_q(["noop", "addAlarm", "removeAlarmTwice", "removeWatch", "removeIdle", "slow", "error"]),
+                            abeh=_q(["noop", "addAlarm", "addIdle", "removeAlarmTwice", "removeWatch", "removeIdle", "slow", "error"]),
                             wbeh=_q(["noop", "removeSelfWatch", "removeAlarm", "slow", "error"]), ibeh=_q(IBEH))
     else:
         cfg = MC_CFG.format(na=2, nf=2, ni=2, bad="", delays=_q([0, 10, 20]), ats=_q([9999, 0, 15]), abeh=_q(ABEH), wbeh=_q(WBEH), ibeh=_q(IBEH))
